@@ -110,7 +110,12 @@ def work(item, N):
     win, ci = mode_info(mode, flags)
     try:
         if kind == 'escape':
-            pat = m.escape(s) if mode == 'fn' else m.escape(s, unix=not win)
+            if mode == 'fn':
+                pat = m.escape(s)
+            elif not win and len(s) % 2 == 0:
+                pat = m.escape(s)                 # the default (unix=None) means the running platform's rules: POSIX here
+            else:
+                pat = m.escape(s, unix=not win)
         else:
             pat = s
             if m.is_magic(s, flags=flags):
@@ -165,7 +170,7 @@ def strings(ctx, rnd):
         k = rnd.randint(3, 6)
         out.append(''.join(rnd.choice(ALPHABET) for _ in range(k)))
     out += ['!(a)', '@(a|b)', '[a-c]', '{a,b}', '~user', '~', '-a', '!a', 'a|b', '\\*', '\\\\', '\\', 'a\\', '**', '***/a', '.', '..', './a', '.a', '[[:alpha:]]',
-            '[]', '[!', 'a/b', '/a', 'a/', '//a', 'a//b/', '\\x41', '\\N{DIGIT ONE}', '\\u0041', '\\101', '\\n']
+            '[]', '[!', 'a/b', '/a', 'a/', '//a', 'a//b/', '//a*/b', '//a*/b/c*', '//s?/[a]/f', '///a*', '//?/a*', '//./a[b]', '//a', '//*', '//*/[b]', '/a*/b', '\\x41', '\\N{DIGIT ONE}', '\\u0041', '\\101', '\\n']
     seen = set()
     res = []
     for s in out:
@@ -198,7 +203,9 @@ def build_items(ctx, rnd):
             items.append(('escape', 'gl', s, f))
     # Windows drive / UNC shapes
     W = G.FORCEWIN
-    for s in ('c:/a', 'C:\\a*', '//host/share/a[b]', '\\\\host\\share\\{a}', '//?/c:/a!', '//?/UNC/host/share/x|y', 'c:', 'c:a', '//host/share', '//./c:/(a)'):
+    for s in ('//?/UNC/ser*ver/share/x', '//?/unc/s[a]/!(b)/f', '//?/Unc/a*/b?/c', '//?/GLOBAL/UNC/s[a]/!(b)/f', '//?/global/unc/a*/b/c', '//h*st/sh[a]re/x', '//./UNC/a*/b/c',
+              '//?/c:/a*', '//?/C:/a*', 'C:/a*', 'c:/[a]', '//?/Volume{ab}/x*', '//?/GLOBAL/c:/a*',
+              'c:/a', 'C:\\a*', '//host/share/a[b]', '\\\\host\\share\\{a}', '//?/c:/a!', '//?/UNC/host/share/x|y', 'c:', 'c:a', '//host/share', '//./c:/(a)'):
         for f in (W, W | G.EXTGLOB | G.BRACE | G.SPLIT | G.NEGATE, W | G.CASE):
             items.append(('escape_drive', 'gl', s, f))
     return items
@@ -310,7 +317,8 @@ def classify_known(res):
     kind, mode, s, flags = res['item']
     m = e1.mod_of(mode)
     win, _ci = mode_info(mode, flags)
-    if mode == 'gl' and win and len(s) >= 2 and s[0] in '/\\' and s[1] in '/\\' and res['status'] in ('differs', 'self_rejected'):
+    if mode == 'gl' and win and len(s) >= 2 and s[0] in '/\\' and s[1] in '/\\' and (res['status'] == 'self_rejected' or (res['status'] == 'differs' and res.get('impl') is False)):
+        # (only the direction of the listed defect: a spelling of s that the pattern REJECTS; a foreign name that is accepted is not part of it)
         # a string that begins with two separators is read as a UNC prefix, which tolerates no duplicate separators inside it
         return 'unc-shaped-string-duplicate-separators'
     if mode == 'gl' and s.endswith('\n') and res['status'] in ('differs', 'self_rejected'):
